@@ -915,6 +915,11 @@ func (d *dealer) syncCall(caller *wamp.Session, msg *wamp.Call) {
 		if timeout > maxTimeoutMs {
 			timeout = maxTimeoutMs
 		}
+		// A further chunk of a progressive call restarts the timeout: stop the
+		// timer of the previous chunk, which could not be stopped later.
+		if invk.timerCancel != nil {
+			invk.timerCancel()
+		}
 		// Timer removed if context canceled, call cancelled if timeout.
 		var timerCtx context.Context
 		timerCtx, invk.timerCancel = context.WithTimeout(context.Background(),
